@@ -24,7 +24,7 @@ RULE = ("inputs: G1 raw byte/text strings; G2 grammar: 2-6 dot-separated segment
         "a header-like object whose members (alg, enc, zip, crit, b64, epk, apu, apv, p2s, p2c, iv, tag, kid, jwk, ...) take values of "
         "every JSON type, alg/enc/zip mostly real names; G3 valid joserfc tokens with one header member retyped or one segment replaced; "
         "G4 reference-minted authenticated tokens with hostile inner data (corrupt/truncated/zlib-/gzip-framed DEFLATE incl. corrupt zlib-framed streams, non-JSON and "
-        "non-object claims); G5 JWS/JWE JSON-serialization dicts with the emitted members present with their declared Python types and "
+        "non-object claims; CBC ciphertexts that are empty, not a multiple of the block size or badly padded under a correct HMAC tag); G5 JWS/JWE JSON-serialization dicts with the emitted members present with their declared Python types and "
         "arbitrary contents; G6 nesting depth 10^3-10^5. Each input goes to deserialize_compact/json, rfc7797.*, decrypt_compact/json, "
         "jwt.decode with fixed well-formed keys (matching key type, other key, key set) and registries (default, all algorithms, "
         "non-strict, any-recipient). non-trivial: the input passes segment splitting and header decoding (reaches header processing); "
